@@ -389,9 +389,13 @@ func c09Model(c *Ctx) {
 		b := c09QROut(dec, c06Transpose(m))
 		c.Note("qrpair:" + kind + ":" + a[:1] + b[:1])
 		c.Cmp("qrpair", fmt.Sprintf("c09 qrpair %s %s", a, b), "consistent")
-		// the clause itself on the real decoder: a symbol that reads directly is read AND flagged when mirrored
-		if a[:2] == "D:" {
-			c.Oracle("c09-qr-matrix", b == "M:"+a[2:] || b[:2] == "D:", "mirrored-qr-matrix-not-read-or-not-flagged",
+		// the clause itself on the real decoder ("forall QR c: decode(transpose(matrix)) == c with mirrored flag"):
+		// an intact symbol reads directly, unflagged, and its transpose reads with the same text, flagged
+		if kind == "valid" {
+			c.Oracle("c09-qr-matrix", a[:2] == "D:" && b == "M:"+a[2:], "mirrored-qr-matrix-not-read-or-not-flagged",
+				fmt.Sprintf("qr matrix %dx%d#%x", m.GetWidth(), m.GetHeight(), c06MatrixHash(m)), "direct="+a+" transposed="+b)
+		} else if a[:2] == "D:" {
+			c.Oracle("c09-qr-matrix", b == "M:"+a[2:] || b[:2] == "D:", "mirrored-qr-matrix-inconsistent",
 				fmt.Sprintf("qr matrix %dx%d#%x", m.GetWidth(), m.GetHeight(), c06MatrixHash(m)), "direct="+a+" transposed="+b)
 		}
 	}
